@@ -12,6 +12,7 @@ class ClientIOFam(Family):
     name = "clientio"
     oracle = "clientio.oracle"
     header = 0
+    timeout = 240       # the whole family runs in seconds; a driver that hangs (a deadlocked handler) is given up early
 
     def generate(self, tier, rng):
         quick = tier == "quick"
